@@ -26,7 +26,16 @@ Act(e) == CASE e.op = "make" -> MakeKernel(e.s, e.m, e.q)
             [] e.op = "set" -> SetParam(e.w, e.r)
             [] e.op = "eval" -> Eval(e.w, e.q)
             [] e.op = "clone" -> Clone(e.w, e.w2)
+            [] e.op = "expset" -> ExpSet(e.m, e.q, e.r)
+            [] e.op = "expupdate" -> ExpUpdate(e.m, e.q)
+            [] e.op = "exptheory" -> ExpTheory(e.m, e.q)
             [] OTHER -> FALSE
+
+\* the oracle key of what Experiment.theory() must return now, from the specification's own state: the current
+\* parameter values unless they were set without update() (then the cached request, if any, may still be used)
+ExpKey(m, q) == LET x == exper[<<m, q>>]
+                    used == IF x.cache = "none" THEN x.store ELSE x.cache
+                IN "ex|" \o m \o "|" \o q \o "|" \o (IF x.dirty THEN used ELSE x.store)
 
 Reject(e, clause, detail) ==
     /\ PrintT(<<"REJECT", e.tid, l, clause, detail>>) /\ TLCSet(2, TLCGet(2) + 1)
@@ -38,6 +47,7 @@ ResetH(e) == /\ kern' = [s \in Slots |-> Dead]
              /\ dm' = [x \in Models \X QSets |-> <<"garbage">>]
              /\ dict' = [r \in Requests |-> TRUE]
              /\ ret' = NoRet /\ held' = NoHeld /\ nops' = 0
+             /\ exper' = [x \in Models \X QSets |-> NoExp]
 
 TInit == Init /\ l = 1 /\ skip = FALSE /\ oracle = <<>> /\ TLCSet(1, 0) /\ TLCSet(2, 0)
 TNext ==
@@ -52,6 +62,10 @@ TNext ==
        ELSE IF skip THEN UNCHANGED <<skip, oracle, vars>>
        ELSE IF e.ev = "Op" THEN
             IF ~ENABLED Act(e) THEN Reject(e, "harness-op-not-enabled", e.op)
+            ELSE IF e.op = "exptheory" /\ ExpKey(e.m, e.q) \notin DOMAIN oracle THEN Reject(e, "harness-no-oracle", ExpKey(e.m, e.q))
+            ELSE IF e.op = "exptheory" /\ e.val # oracle[ExpKey(e.m, e.q)] THEN
+                 Reject(e, IF exper[<<e.m, e.q>>].dirty THEN "depends-on-history" ELSE "theory-not-current-after-update",
+                        ToString(<<ExpKey(e.m, e.q), "fresh", oracle[ExpKey(e.m, e.q)], "got", e.val>>))
             ELSE IF e.key # "" /\ e.key \notin DOMAIN oracle THEN Reject(e, "harness-no-oracle", e.key)
             \* Purity: bit-identical to the same request made first in a fresh process
             ELSE IF e.key # "" /\ e.val # oracle[e.key] THEN Reject(e, "depends-on-history", ToString(<<e.key, "fresh", oracle[e.key], "got", e.val>>))
